@@ -11,7 +11,7 @@ RULE = ("fixed-buffer writer between two 16-byte guard zones: all histories of l
         "rendering of the N-arithmetic specification; growing writer likewise (content read back through GetReader after every "
         "step); stream copies for every (source length 0..10, chunk in {1,2,3,7,16}, start 0..len) x backend plus the real chunk "
         "size around 128 KiB boundaries; size prefixes of 1/2 bytes at 255/256 and 65535/65536; the full 16 x {exists, absent} "
-        "open-flag matrix on a real scratch directory; file-writer histories of writes and seeks (fixed + random) for every flag value x {absent, empty, 10-byte file}: position after every step and bytes on disk after close")
+        "open-flag matrix on a real scratch directory, also with the target in a directory that does not exist (no CanOpenNew => neither file nor directory may appear); file-writer histories of writes and seeks (fixed + random) for every flag value x {absent, empty, 10-byte file}: position after every step and bytes on disk after close")
 PROVED = ("fixed writer model (u64 guards) = N specification on every op/argument/history; a refused op changes nothing and the "
           "buffer never changes size; a write touches exactly [pos, pos+n); growing writer = history fold (append, zero fill, "
           "truncate); prefix refusal and acceptance; u16/u32 codecs invert, and for EVERY width w the w little-endian bytes written for v read back as v (as v mod 2^(8w) when v does not fit) and writing the value read from b reproduces b (C14_le_roundtrip, C14_le_inverse: mutual inverses); a size-prefixed container accepted by Write<SizeType> is returned by Read<SizeType> for every prefix width, signedness and element size at any stream position with the reader left exactly behind it (C14_prefixed_roundtrip); copy loop transfers exactly the remaining bytes for "
@@ -180,4 +180,13 @@ def cases(tier, rng):
             elif A: exp = "ok " + hexs(b"HELLOXY")
             else: exp = None          # the flags say nothing about prior content
             yield Case(f"fw.open {fl} {ex} 5859", expect=exp, tag="open-flags")
+    # the same flags with the target in a directory that does not exist: a writer that may create the file creates the directory
+    # too; one that may not create anything (no CanOpenNew) must leave the disk as it was — no file and no directory
+    for fl in range(16):
+        E, N, T, A = fl & 1, fl & 2, fl & 4, fl & 8
+        if not N: exp = "refused nodir absent"; chk = None
+        elif T and A:      # contradictory flags: refused, no file; the property does not say whether the directory appears
+            exp = None; chk = (lambda out: None if out in ("refused nodir absent", "refused dir absent") else f"contradictory flags must be refused without creating the file: {out}")
+        else: exp = "ok dir 5859"; chk = None
+        yield Case(f"fw.opendir {fl} 5859", expect=exp, check=chk, tag="open-flags-missing-directory", nomodel=True)
     yield from fw_seq_cases(tier, rng)
